@@ -222,6 +222,9 @@ func scriptJob(r *simcore.RNG, id int, tier string, sinks []string, n int, style
 
 func activeSites(r *simcore.RNG, sink string, always bool) map[string]uint32 {
 	sites := map[string]uint32{"prod": 1, "close": 1, "write": 1}
+	if always || r.Intn(5) != 0 {
+		sites["go.start"] = 1
+	}
 	for _, s := range sinkSites(sink) {
 		if always || r.Intn(5) != 0 { // buggify subset: each hook is active in 4 of 5 episodes
 			sites[s] = 1
